@@ -274,7 +274,10 @@ def oracle(prop, run):
                     yield ("C08 task-finished-row-fields-wrong", {"row": r})
             if r[1] == "TASK_RELEASE":
                 t = tasks.get(r[7])
-                if t and (int(r[5]) != t["release"] or int(r[6]) != t["deadline"]):
+                # the row carries the release time the task had when the row was written (a task can be released
+                # again later, which overwrites it): the last row must agree with the task, every row with its own time
+                later = any(x[1] == "TASK_RELEASE" and x[7] == r[7] for x in rows[rows.index(r) + 1:])
+                if t and ((not later and int(r[5]) != t["release"]) or int(r[5]) != int(r[0]) or int(r[6]) != t["deadline"]):
                     yield ("C08 task-release-row-fields-wrong", {"row": r})
             if r[1] == "TASK_PLACEMENT":
                 t = tasks.get(r[5])
